@@ -133,7 +133,8 @@ def run(workdir, module, workers=16, dump=None, simulate=None, depth=None, seed=
     if r.error is None and p.returncode != 0:
         raise TlcError('TLC failed (rc=%d) on %s:\n%s' % (p.returncode, module, p.stdout[-3000:]))
     if r.error == 'machinery':
-        raise TlcError('TLC error on %s:\n%s' % (module, p.stdout[-4000:]))
+        i = p.stdout.find('Error:')
+        raise TlcError('TLC error on %s:\n%s' % (module, p.stdout[max(0, i - 200):i + 3000] if i >= 0 else p.stdout[-4000:]))
     return r
 
 
